@@ -116,7 +116,7 @@ class C04(HistoryCheck):
     @staticmethod
     def classify(world, op, mk, out, before, after, what):
         """Narrow labels for the footprints of recorded defects (see known_findings.json)."""
-        if what in ("args", "instances") and collection_normalised_in_place(world, op, out, before, after):
+        if what in ("args", "instances", "defaults") and collection_normalised_in_place(world, op, out, before, after):
             return "collection_normalised_in_place"
         if out.fired and out.fired[0] == "cb" and "invalidate_attrs" in out.fired[3]:
             return "raised_during_invalidation"
